@@ -12,11 +12,14 @@ COMMON = dict(units=U, fp=[(r"getc", ["h_getc"])], stubs=["libc.c", "pathmodel.c
 def queries(tier):
     n = 3 if tier == "quick" else 5
     real = ["mptcore/config/%s.c" % f for f in "path_add path_addchar path_valid path_fini".split()] + ARRAY_UNITS
-    step = Q("path_step_real", "C08/pathstep.c", units=real, unwind_default=70, fp=BUF_FP, flags=["--memory-leak-check", "--max-field-sensitivity-array-size", "400"],
-             stubs=["libc.c", "malloc_pages.c", "libc_loops.c", "no_traits.c"], unwind={"memcpy": 70, "memset": 70, "memmove": 70, "memchr": 70},
-             bounds="real path storage: one mpt_path_add / mpt_path_addchar with the stored data at 62..64 of 64 capacity bytes (growth/relocation included), 0..2 post characters",
-             outside="other capacities; shared/immutable path buffers; binary separator mode")
-    return [step, Q("format_pre_total", "C08/pre.c", harness_defines={"MODE": 1, "N": n}, unwind_default=n + 3,
+    steps = []
+    for (u, po, ac) in ([(64, 0, 0), (64, 0, 1), (63, 1, 0), (64, 2, 0)] if tier == "quick" else [(u, po, ac) for u in (62, 63, 64) for po in (0, 1, 2) for ac in (0, 1)]):
+        steps.append(Q("path_step_real_u%d_p%d_%s" % (u, po, "addchar" if ac else "add"), "C08/pathstep.c", units=real, harness_defines={"USED": u, "POST": po, "ADDCHAR": ac},
+                       unwind_default=70, fp=BUF_FP, flags=["--memory-leak-check", "--max-field-sensitivity-array-size", "400"],
+                       stubs=["libc.c", "malloc_pages.c", "libc_loops.c", "no_traits.c"], unwind={"memcpy": 70, "memset": 70, "memmove": 70, "memchr": 70},
+                       bounds="real path storage (allocator buffer of capacity 64): stored data %d bytes, %d post characters, one %s (growth/relocation when full)" % (u, po, "mpt_path_addchar" if ac else "mpt_path_add"),
+                       outside="other capacities; shared/immutable path buffers; binary separator mode"))
+    return steps + [Q("format_pre_total", "C08/pre.c", harness_defines={"MODE": 1, "N": n}, unwind_default=n + 3,
               unwind={"memchr": 6, "verif_pm_add": 34},
               bounds="one mpt_parse_format_pre call on %d fully symbolic input bytes (all 256 values), empty initial path" % n,
               outside="inputs above %d bytes per call; non-empty initial path; 'enc'/'sep' styles; the mpt_parse_config loop; names/values beyond the 24-byte storage" % n,
